@@ -11,7 +11,7 @@
    definitions (countsv, btv, nanv, panicv), and the tie holds for all of them. *)
 From Coq Require Import ZArith NArith QArith Qround Qabs List Lia Lqa.
 From MM Require Import Base.Num Base.GoSem Model.Hist.
-From MMGen Require Import Gen_stats_types Gen_stats_linearhist Gen_stats_hist.
+From MMGen Require Import Gen_stats_types Gen_stats_linearhist Gen_stats_loghist Gen_stats_hist.
 Import ListNotations.
 Local Open Scope Q_scope.
 
@@ -84,6 +84,40 @@ Proof.
   intros [mn mx d lo hi bins] bin Hwf. unfold wf in Hwf. unfold gen_LinearHist_BinToValue, lin_bin_to_value. proj.
   rewrite Hwf. unfold Qdiv. rewrite Qinv_mult_distr, Qinv_involutive. ring.
 Qed.
+
+(* ====================================================================== *)
+(* loghist.go: Add's dispatch and Counts, for EVERY logarithm function       *)
+(* ====================================================================== *)
+(* bin(x) = floor(mOverLogb * log x) needs math.Log: it is the opaque parameter logf of the
+   generated definitions.  What is tied is the counting structure the conservation theorems of
+   C14 are about: Add increments exactly the slot that [dispatch] assigns to the bin index. *)
+Definition to_hstate_log (h : LogHist_rec) : hstate :=
+  mkH (LogHist_low h) (LogHist_bins h) (LogHist_high h).
+
+Definition no_overflow_log (h : LogHist_rec) : Prop :=
+  (LogHist_low h + 1 < 2 ^ 64)%N /\ (LogHist_high h + 1 < 2 ^ 64)%N /\
+  forall c, In c (LogHist_bins h) -> (c + 1 < 2 ^ 64)%N.
+
+Ltac lproj := cbn [LogHist_b LogHist_m LogHist_mOverLogb LogHist_low LogHist_high LogHist_bins
+                   h_under h_bins h_over] in *.
+
+Theorem tie_LogHist_Add : forall (logf : Q -> Q) (h : LogHist_rec) (x : Q), no_overflow_log h ->
+  let h' := gen_LogHist_Add logf h x in
+  to_hstate_log h' = h_incr (to_hstate_log h) (dispatch (length (LogHist_bins h)) (gen_LogHist_bin logf h x)) /\
+  LogHist_b h' = LogHist_b h /\ LogHist_m h' = LogHist_m h /\ LogHist_mOverLogb h' = LogHist_mOverLogb h.
+Proof.
+  intros logf h x (Hlo & Hhi & Hb). unfold gen_LogHist_Add.
+  set (b := gen_LogHist_bin logf h x). destruct h as [bb m ml lo hi bins].
+  unfold to_hstate_log, dispatch, h_incr. lproj. unfold go_len, go_uadd, go_upd, go_idx.
+  zcases; cbn [andb orb negb]; lproj; try (exfalso; lia);
+    rewrite ?(wrap_u_small 64 (lo + 1)) by exact Hlo; rewrite ?(wrap_u_small 64 (hi + 1)) by exact Hhi;
+    rewrite ?upd_incr by (try exact Hb; lia);
+    repeat split; reflexivity.
+Qed.
+
+Theorem tie_LogHist_Counts : forall h : LogHist_rec,
+  gen_LogHist_Counts h = (h_under (to_hstate_log h), h_bins (to_hstate_log h), h_over (to_hstate_log h)).
+Proof. intros h. reflexivity. Qed.
 
 (* ====================================================================== *)
 (* hist.go: HistogramQuantile (rank walk) and HistogramIQR                  *)
